@@ -6,7 +6,8 @@ FUNCTIONS = ["uxarray.grid.grid.Grid.__eq__", "uxarray.grid.grid.Grid.__ne__",
     "uxarray.grid.coordinates._populate_node_latlon",
     "uxarray.grid.coordinates._set_desired_longitude_range",
     'uxarray.grid.grid.Grid.copy',
-    'uxarray.grid.grid.Grid.__init__@format']
+    'uxarray.grid.grid.Grid.__init__@format',
+    'uxarray.io._topology._process_connectivity']
 CUSTOM_REPLAY = {
     "uxarray.grid.grid.Grid.__eq__": {"module": "standins.C20", "function": "replay_eq"},
     "uxarray.grid.grid.Grid.__ne__": {"module": "standins.C20", "function": "replay_eq"},
@@ -15,5 +16,5 @@ STANDINS = ["eq_matrix"]
 ASSUMPTIONS = ["xarray.DataArray.equals(a, b) <=> same dims, shape and values (assumed contract, equivalence relation)",
                "Grid property reads (node_lon, node_lat, face_node_connectivity) are deterministic functions of the grid (C08)"]
 EXPLANATION = "boolean structure of __eq__/__ne__ against the stated iff; reflexive/symmetric follow from the iff and the assumed equivalence"
-LEVEL_TEXT = 'Grid.__eq__/__ne__ proved against the stated iff over all truth assignments of (format, lon, lat, connectivity) equal; reflexive/symmetric by the assumed equivalence of DataArray.equals; __ne__ proved in abstract mode: anything else it might consult (dimension sizes, derived tables, caches) is state two equal grids need not share; the node_lon / node_lat properties the comparison reads proved to yield the same wrapped longitude / latitude whichever of the two is read first on a Cartesian-only grid, and (_populate_node_latlon) to be a function of the stored Cartesian coordinates only, normalised first; Grid.__init__ proved to record as the format exactly the source_grid_spec it was constructed with, whatever the dataset handed in carries; exhaustive 16-case matrix on real grids and access-history pairs bounded'
+LEVEL_TEXT = 'Grid.__eq__/__ne__ proved against the stated iff over all truth assignments of (format, lon, lat, connectivity) equal; reflexive/symmetric by the assumed equivalence of DataArray.equals; __ne__ proved in abstract mode: anything else it might consult (dimension sizes, derived tables, caches) is state two equal grids need not share; the node_lon / node_lat properties the comparison reads proved to yield the same wrapped longitude / latitude whichever of the two is read first on a Cartesian-only grid, and (_populate_node_latlon) to be a function of the stored Cartesian coordinates only, normalised first; Grid.__init__ proved to record as the format exactly the source_grid_spec it was constructed with, whatever the dataset handed in carries; the connectivity a grid is built from (_process_connectivity) proved to be a fresh array on every branch, so that editing the source array afterwards cannot change an existing grid and make it equal to a grid built from the edited source; exhaustive 16-case matrix on real grids and access-history pairs bounded'
 LEVEL_NOTE = 'xarray.DataArray.equals assumed to be an equivalence on (dims, shape, values)'
